@@ -110,6 +110,11 @@ def r11a(ctx):
                         and isinstance(a.targets[0], ast.Name) and a.targets[0].id == S.id]
                 if len(defs) == 1 and counter_key(defs[0].value) == K and pos[id(defs[0])] < ip and parent(defs[0]) is block:
                     start_ok, how = True, f"{S.id} = counter read before the increment"
+                elif (len(defs) == 1 and ip < pos[id(defs[0])] < cpos and parent(defs[0]) is block
+                      and NF({k: v for k, v in env.items() if k != S.id}).nf(defs[0].value).equals(NF().nf(parse_expr(f"self._counters['{K}']")) - nfE)
+                      and not any(ip2 for inc2, K2, E2 in incs for ip2 in [pos[id(inc2)]] if K2 == K and pos[id(defs[0])] < ip2 < cpos)):
+                    # `row = counter - increment` taken after the increment and before any further increment of the same counter
+                    start_ok, how = True, f"{S.id} = counter - increment, read after the increment"
                 else:
                     how = f"{S.id} defined by {[u(d) for d in defs]}"
             elif S is not None:
